@@ -13,7 +13,7 @@ import (
 var allTys = []Ty{TNum, TInt, TStr, TBool, TNull, TArrInt, TArrStr, THash1, THash2}
 
 var wildNames = []string{"i0", "i1", "n0", "n1", "s0", "s1", "b0", "z0", "an0", "as0", "h0", "h1",
-	"per", "pp", "np", "mi", "ms", "sl", "em", "nm", "ns", "neg", "zero", "numstr", "big", "nope", "loop", "_self", "x", "y"}
+	"per", "pp", "np", "mi", "ms", "sl", "em", "nm", "ns", "neg", "zero", "numstr", "big", "nope", "loop", "_self", "x", "y", "cyc", "cn", "en", "nanm"}
 
 // WildCtx is the context of wild programs: the standard variables plus the
 // Go value menagerie.
@@ -31,6 +31,9 @@ func WildCtx() map[string]sb.V {
 		"ms": {K: "map:str:int", KV: []sb.V{str("a")}, E: []sb.V{num(1)}},
 		"sl": {K: "slice:int", E: []sb.V{num(5), num(6)}}, "em": {K: "arr"}, "nm": {K: "nilmap:str"}, "ns": {K: "nilslice:int"},
 		"neg": num(-4), "zero": num(0), "numstr": str("12"), "big": num(1e18),
+		// data that refers back to itself, a nil embedded pointer, a NaN map key
+		"cyc": {K: "cyclicmap"}, "cn": {K: "cyclicnode"}, "en": {K: "embednil", S: "Home"},
+		"nanm": {K: "map:float64:str", KV: []sb.V{{K: "nan"}, num(1)}, E: []sb.V{str("nan"), str("one")}},
 	}
 }
 
@@ -122,7 +125,7 @@ func (g *G) wildExpr(d int) *m.E {
 		}
 		return h
 	case 9:
-		return m.EAttr(sub(), pickS(g, "wattr", []string{"k0", "k1", "a", "0", "1", "9", "Name", "Age", "priv", "Tags", "Inner", "M", "Zero", "Nothing", "Two", "nope", "length", "index", "parent", "templateName"}))
+		return m.EAttr(sub(), pickS(g, "wattr", []string{"k0", "k1", "a", "0", "1", "9", "Name", "Age", "priv", "Tags", "Inner", "M", "Zero", "Nothing", "Two", "nope", "length", "index", "parent", "templateName", "Description", "Title", "missing", "self", "title", "Parent", "Kids"}))
 	case 10:
 		return m.EIdx(sub(), sub())
 	case 11:
